@@ -10,6 +10,7 @@ CONSTANTS
   Clash = {"no"}
   DDs = {"diamond"}
   DDVft = {"no"}
+  B1Names = {"b1"}
   Ptrs = {4, 8}
   Lead = {FALSE}
   EmptyBlocks = {FALSE}
